@@ -267,6 +267,7 @@ def run(ctx):
 
     # ------------------------------------------------ generic family
     batch = []
+    dom_batch = []      # (case, python in_domain, implementation round trip ok, request) for the theorem's domain
     for i in range(n_triples):
         rowlib.clear_cache()
         t = rowgen.gen_model(rng, rng.choice([0, 1, 1, 2, 2, 3]), "M", root=True)
@@ -314,6 +315,11 @@ def run(ctx):
                 ev = rowlib.e_value(t, val)
             except rowlib.Unsupported:
                 continue
+            if not X:
+                rt_ok = un[0] == "ok" and back[0] == "ok" and _deep_eq(back[1], val)
+                dom_batch.append((dict(model=_show_ty(t), value=val, targets=T), dom, rt_ok,
+                                  dict(fn="generic", ty=_jsonable_ty(t), value=val, targets=T, excluded=X),
+                                  f"(107 6 {rm} {ev} {rowlib.e_strs(T)})"))
             reqs = [f"(107 2 {rm} {ev} {rowlib.e_strs(T)} {rowlib.e_strs(X)})"]
             if un[0] == "ok":
                 reqs.append(f"(107 1 {rm} {rowlib.e_cells(un[1])})")
@@ -330,8 +336,16 @@ def run(ctx):
         if m and (len(batch) >= 400 or i == n_triples - 1):
             flush_generic(ctx, m, batch, stats)
             batch = []
+            flush_domain(ctx, m, dom_batch, stats)
+            dom_batch = []
     if m and batch:
         flush_generic(ctx, m, batch, stats)
+    if m and dom_batch:
+        flush_domain(ctx, m, dom_batch, stats)
+
+    # ------------------------------------------------ the witnesses of the _refuted theorems, on the implementation
+    probe_refutations(ctx, stats)
+    probe_column_orders(ctx, stats)
 
     # ------------------------------------------------ matches_headers on its own
     if m:
@@ -376,6 +390,114 @@ def run(ctx):
         "pydantic-v1 construction modelled on the trees the parser can produce (defaults filled, None rejected below the top level)",
         "tablib/openpyxl/csv are not modelled: the file legs are oracle-only",
     ]
+
+
+def flush_domain(ctx, m, dom_batch, stats, key="generic-roundtrip", what="row_dom"):
+    """The domain of the Coq theorem C07_row_roundtrip (row_dom, evaluated by the extracted model)
+    against the domain the oracle is written from (rowgen.in_domain, from the property text):
+    the theorem must cover every case the oracle counts as in-domain; and wherever the theorem
+    applies the implementation must round-trip (theorem + correspondence => implementation)."""
+    outs = ask_all(m, [d[4] for d in dom_batch])
+    for (case, pydom, rt_ok, rep, _), o in zip(dom_batch, outs):
+        if o not in ("0", "1"):
+            ctx.disagree(f"{what}: model could not decode the request", case, o, pydom)
+            continue
+        thm = o == "1"
+        stats["theorem_domain"] = stats.get("theorem_domain", 0) + thm
+        if pydom and not thm:
+            ctx.disagree(f"the theorem's domain ({what}) does not cover a case the oracle counts as representable+admissible",
+                         case, f"{what}=false", "in_domain=true")
+        if thm and not pydom:
+            stats["theorem_domain_beyond_oracle"] = stats.get("theorem_domain_beyond_oracle", 0) + 1
+        if thm and not rt_ok:
+            ctx.v.failing_input(key, f"inside the proved domain ({what}) the implementation does not round-trip: {case!r}"[:3000], rep)
+
+
+# the instances of Row/RefuteFacts.v: (key, type, value, targets, cells the theorem states, instance read back or None)
+def _refutation_witnesses():
+    from rowlib import STR, BOOL
+    sub = ("model", "Sub", [("x", STR, "")], {}, {})
+    m1 = ("model", "M", [("a", STR, ""), ("l", ("list", sub), [])], {}, {})
+    sub2 = ("model", "Sub2", [("f", BOOL, True), ("a", STR, "x")], {}, {})
+    m2 = ("model", "M2", [("k", STR, ""), ("s", sub2, {"f": True, "a": "x"})], {}, {})
+    m4 = ("model", "M4", [("l", ("list", sub), [])], {}, {})
+    return [
+        ("all_default_in_list", m1, {"a": "q", "l": [{"x": ""}]}, [], [("a", "q")], {"a": "q", "l": []}),
+        ("packed_blank", m2, {"k": "q", "s": {"f": True, "a": ""}}, ["s"], [("k", "q"), ("s", "a;|")],
+         {"k": "q", "s": {"f": True, "a": "x"}}),
+        ("packed_blank_spread_ok", m2, {"k": "q", "s": {"f": True, "a": ""}}, [], [("k", "q"), ("s.a", "")],
+         {"k": "q", "s": {"f": True, "a": ""}}),
+        ("packing_limit", m4, {"l": [{"x": "q"}]}, ["l"], None, None),
+    ]
+
+
+def probe_column_orders(ctx, stats):
+    """The instances of Row/OrderFacts.v on the real RowParser: the example row with its columns
+    shuffled (each list's columns by increasing index) reads back as the instance; with u.2
+    before u.1 parse_row fails (AssertionError of find_entry), as the _refuted theorem says."""
+    from rowlib import STR, INT, FLOAT, BOOL, ULIST, REQUIRED
+    sub = ("model", "Sub", [("x", STR, ""), ("y", INT, 0)], {}, {})
+    ty = ("model", "M", [("a", STR, ""), ("b", ("list", STR), []), ("c", sub, REQUIRED), ("d", ("list", sub), []),
+                         ("e", FLOAT, 0.0), ("g", BOOL, True), ("u", ULIST, []), ("r", ("list", ("list", STR)), [])],
+          {"hdr": "r"}, {"r": "hdr"})
+    val = {"a": "h|i;\\", "b": ["1", "; 2", "\u00e9a"], "c": {"x": "q", "y": -5},
+           "d": [{"x": "q", "y": 0}, {"x": "", "y": 7}], "e": -2.25, "g": False, "u": ["x y", "a\nb"],
+           "r": [["k", "v"], ["z"]]}
+    T = ["b", "d.*"]
+    rowlib.clear_cache()
+    ctx.v.coverage["evaluations"] += 2
+    try:
+        parser, inst, un, back = impl_case(ty, val, T, [])
+    except Exception as e:
+        ctx.disagree("column-order witness could not be built", "ex", "theorem", repr(e))
+        return
+    if un[0] != "ok" or back[0] != "ok" or not _deep_eq(back[1], val):
+        ctx.disagree("column-order witness: canonical order", "ex", val, (un, back))
+        return
+    cells = dict(un[1])
+    order_ok = ["hdr", "c.y", "d.1", "u.1", "a", "d.2", "g", "c.x", "u.2", "e", "b"]
+    order_bad = ["a", "b", "c.x", "c.y", "d.1", "d.2", "e", "g", "u.2", "u.1", "hdr"]
+    if sorted(order_ok) != sorted(cells) or sorted(order_bad) != sorted(cells):
+        ctx.disagree("column-order witness: headers", "ex", sorted(order_ok), sorted(cells))
+        return
+    good = impl_parse(parser, [(k, cells[k]) for k in order_ok])
+    stats["column_order_witnesses"] = 2
+    if good[0] != "ok" or not _deep_eq(good[1], val):
+        ctx.v.failing_input("column-order", f"shuffled columns {order_ok} of {cells} read back as {good!r}, not {val!r}",
+                            dict(fn="order", order=order_ok))
+    bad = impl_parse(parser, [(k, cells[k]) for k in order_bad])
+    if bad[0] == "ok":
+        ctx.disagree("column-order witness: the theorem says parse_row fails for u.2 before u.1", "ex", "Err EAssert", bad)
+
+
+def probe_refutations(ctx, stats):
+    """Replays the witnesses of C07_*_refuted on the real RowParser: the implementation must do
+    what the theorems say the model does.  The one witness that lies inside the domain of the
+    property TEXT (a blank value under a non-blank default in a packed model) is a failing
+    input of the property (known finding)."""
+    for (name, t, val, T, cells, back_want) in _refutation_witnesses():
+        rowlib.clear_cache()
+        ctx.v.coverage["evaluations"] += 1
+        stats["refutation_witnesses"] = stats.get("refutation_witnesses", 0) + 1
+        try:
+            parser, inst, un, back = impl_case(t, val, T, [])
+        except Exception as e:
+            ctx.disagree("refutation witness could not be built", name, "theorem", repr(e))
+            continue
+        if cells is None:
+            if un[0] == "ok":
+                ctx.disagree("refutation witness: the theorem says unparse_row fails", name, "Err EJoin", un)
+            continue
+        if un[0] != "ok" or un[1] != cells:
+            ctx.disagree("refutation witness: cells", name, cells, un)
+            continue
+        if back[0] != "ok" or not _deep_eq(back[1], back_want):
+            ctx.disagree("refutation witness: instance read back", name, back_want, back)
+            continue
+        if name == "packed_blank":
+            ctx.v.failing_input("packed-model-blank-value-under-nonblank-default",
+                                f"model={_show_ty(t)} value={val!r} targets={T} -> cells={cells} -> back={back[1]!r}",
+                                dict(fn="generic", ty=_jsonable_ty(t), value=val, targets=T, excluded=[]))
 
 
 def flush_generic(ctx, m, batch, stats):
@@ -426,6 +548,7 @@ def run_flow(ctx, stats, nontrivial, samples, RowParser, CellParser, RowDataShee
     n_files = (400 if thorough else 40) * ctx.scale
     fstats = {"rows": 0, "in_domain": 0, "by_type": {}, "strip_uuids": 0, "file_csv": 0, "file_xlsx": 0, "multi_row_sheets": 0}
     batch = []
+    flow_dom_batch = []
     good_rows = []
     for i in range(n_flow):
         good = rng.random() < 0.85
@@ -454,6 +577,10 @@ def run_flow(ctx, stats, nontrivial, samples, RowParser, CellParser, RowDataShee
                 nontrivial.add(repr(un[1]))
                 if not strip:
                     good_rows.append(val)
+        if m and not strip:
+            rt_ok = un[0] == "ok" and back[0] == "ok" and _deep_eq(back[1], val)
+            flow_dom_batch.append((dict(flow_row=val), dom, rt_ok, dict(fn="flow", value=val, strip=False),
+                                   f"(107 7 {rowlib.e_value(desc, val)})"))
         if m:
             reqs = [f"(107 5 {rowlib.e_value(desc, val)} {1 if strip else 0})"]
             bad = badr = None
@@ -472,6 +599,8 @@ def run_flow(ctx, stats, nontrivial, samples, RowParser, CellParser, RowDataShee
             samples.append(dict(flow_row_cells=un[1]))
     if m and batch:
         flush_generic(ctx, m, batch, stats)
+    if m and flow_dom_batch:
+        flush_domain(ctx, m, flow_dom_batch, fstats, key="flow-roundtrip", what="flow_dom")
 
     # ---- through files: RowDataSheet.export -> reader -> SheetParser -> parse_row
     scratch = tempfile.mkdtemp(prefix="rpftc07")
@@ -626,6 +755,21 @@ def replay(rep):
     from rpft.parsers.sheets import CSVSheetReader, XLSXSheetReader
 
     r = rep["replay"]
+    if r["fn"] == "order":
+        class _V:
+            coverage = {"evaluations": 0}
+            def failing_input(self, key, summary, replay):
+                print(summary)
+                self.bad = True
+        class _C:
+            v = _V()
+            def disagree(self, *a):
+                print("disagree:", a)
+                self.v.bad = True
+        c = _C()
+        c.v.bad = False
+        probe_column_orders(c, {})
+        return not c.v.bad
     if r["fn"] == "generic":
         t = _ty_from_json(r["ty"])
         parser, inst, un, back = impl_case(t, r["value"], r["targets"], r["excluded"])
